@@ -648,8 +648,12 @@ func RuleR4(c *Ctx) {
 	mayStore := func(nd ast.Node) bool { return directStore(nd) || viaHelper(nd, func(s summ) bool { return s.mayS }) }
 	mustAppend := func(nd ast.Node) bool { return directAppend(nd) || viaHelper(nd, func(s summ) bool { return s.mustA }) }
 	mayAppend := func(nd ast.Node) bool { return directAppend(nd) || viaHelper(nd, func(s summ) bool { return s.mayA }) }
-	mustRoot := func(nd ast.Node) bool { return rootOfResolver(nd) || viaHelper(nd, func(s summ) bool { return s.mustR }) }
-	mayRoot := func(nd ast.Node) bool { return rootOfResolver(nd) || viaHelper(nd, func(s summ) bool { return s.mayR }) }
+	mustRoot := func(nd ast.Node) bool {
+		return rootOfResolver(nd) || viaHelper(nd, func(s summ) bool { return s.mustR })
+	}
+	mayRoot := func(nd ast.Node) bool {
+		return rootOfResolver(nd) || viaHelper(nd, func(s summ) bool { return s.mayR })
+	}
 	// the parent that is stored is the parent that lists the child - judged in each function
 	// of the family that appends a child
 	nPair := 0
